@@ -319,6 +319,26 @@ Definition stepx (fx : bool) (c : tcfg) (s : state) (l : label) : option state :
 (* the model of the code as it is in the repository *)
 Definition step : tcfg -> state -> label -> option state := stepx fix_fwd.
 
+(* Candidate repair of the finding stream:stale-replay (hooks/candidate-fix-c08-a-*.patch, NOT in the
+   repository): finitestate.Machine wraps every state-changing call and the pair "register with the
+   broadcast manager; read the current state" of GetStateChan in one mutex.  In the model: no machine
+   call and no other registration while some subscriber is between its registration and its read.
+   [step_fixsub] is a restriction of [step] (every run of it is a run of [step], so every theorem about
+   [step] holds of it) in which additionally read_at = reg_at for every subscriber: the stream is
+   exactly s0 :: later changes - no duplicate, no stale replay (proofs/FsmExtra.v).
+   [fix_sub] tells the correspondence driver which variant the repository is: with [true] a leading
+   duplicate on the implementation's streams is a disagreement as well. *)
+Definition fix_sub : bool := false.
+
+Definition all_live (s : state) : bool :=
+  forallb (fun x => match sg x with SLive => true | SReg => false end) (subs s).
+
+Definition step_fixsub (c : tcfg) (s : state) (l : label) : option state :=
+  match l with
+  | LOp _ _ | LSub => if all_live s then step c s l else None
+  | _ => step c s l
+  end.
+
 (* ------------------------------------------------------------------ *)
 (* The executable predicates of the property (used by the theorems and by the driver) *)
 
